@@ -12,7 +12,7 @@ from pbt.common import Violation, run_hypothesis
 ID = 'C02'
 RULE = ('Hypothesis recursive strategy over DSL expression trees (<= 6 leaves; literals heavy in regex '
         'metacharacters, classes, tokens, empties, all operators, per-node spelling class/method/operator; '
-        'swarm feature subsets per shard) x ~28 subject texts derived from witnesses of the tree and its '
+        'swarm feature subsets per shard; plus "wide" shards: n-ary Concat/Either of 17-129 leaf operands under 1-2 further operators; plus a complete grid of 10-13 capturing groups x two-digit backreference x digit-leading literal) x ~28 subject texts derived from witnesses of the tree and its '
         'sub-trees. Non-trivial = >= 2 contributing operator nodes AND >= 1 text with a non-empty reference '
         'match AND removing the reference\'s parentheses changes behaviour on the texts (grouping matters). '
         'Distinct = distinct serialised (tree, text seed).')
@@ -26,9 +26,21 @@ OWNED = ('diff:match', 'diff:groups', 'not_compilable')
 
 
 def shards(tier):
-    n = 16 if tier == 'quick' else 64
+    n = 13 if tier == 'quick' else 56
     ex = 1500 if tier == 'quick' else 8000
-    return [{'examples': ex, 'max_leaves': 6 if i % 3 else 8} for i in range(n)]
+    out = [{'examples': ex, 'max_leaves': 12 if i % 5 == 4 else (6 if i % 3 else 8)} for i in range(n)]
+    out += [{'mode': 'wide', 'examples': 250 if tier == 'quick' else 1500} for _ in range(2 if tier == 'quick' else 7)]
+    out += [{'mode': 'manycaps'}]
+    return out
+
+
+def manycaps_cases():
+    """Complete small grid: 10-13 groups x two-digit backreference x following literal starting with each digit."""
+    for n in (10, 11, 13):
+        for ref in range(10, n + 1):
+            for d in '0123456789a':
+                for sp in ('class', 'method', 'op'):
+                    yield {'tree': dsl.many_captures_case(n, ref, d + 'x', sp), 'tseed': 0, 'xt': ['abcdefghijklm' + 'jklm'[ref - 10] + d + 'x']}
 
 
 def respell(node, how):
@@ -113,4 +125,14 @@ def strategy(spec, ctx):
 
 
 def run_shard(spec, ctx):
+    if spec.get('mode') == 'manycaps':
+        from pbt.common import run_enumeration
+        run_enumeration(ctx, manycaps_cases(), check_case, '10-13 capturing groups x two-digit backreference x digit-leading literal x spelling')
+        return
+    if spec.get('mode') == 'wide':
+        feats = dsl.swarm_features(ctx.seed, ctx.shard_index)
+        strat = st.fixed_dictionaries({'tree': st.one_of(dsl.wide_tree_strategy(feats), dsl.wide_tree_strategy(feats, leaf=dsl.bracket_heavy_leaf(feats))),
+                                       'tseed': st.integers(0, 2 ** 20)})
+        run_hypothesis(ctx, strat, check_case, spec['examples'], label='wide')
+        return
     run_hypothesis(ctx, strategy(spec, ctx), check_case, spec['examples'])
